@@ -543,11 +543,11 @@ impl<'r, 'a> Collector<'r, 'a> {
             }
             let plain = match e {
                 syn::Expr::Reference(r) => var_or_field(&r.expr),
-                syn::Expr::MethodCall(m) => m.args.is_empty() && matches!(&*m.receiver, syn::Expr::Path(_)),
+                syn::Expr::MethodCall(m) => m.args.is_empty() && var_or_field(&m.receiver),
                 other => var_or_field(other),
             };
             if !plain {
-                die("unsupported", &format!("{}: bind= side condition: the iterated expression of loop {key} is not a plain variable (or a parameterless method call on one)", self.rw.fn_path));
+                die("unsupported", &format!("{}: bind= side condition: the iterated expression of loop {key} is not a plain variable, a field of one, or a parameterless method call on one", self.rw.fn_path));
             }
             let r = rng(e);
             let et = match (&wrap, is_method(e, "iter")) {
@@ -940,6 +940,34 @@ impl<'ast, 'r, 'a> Visit<'ast> for Collector<'r, 'a> {
                 let recv = self.render(&m.receiver);
                 self.rw.log.push("R46 stand-in iterator .collect() -> the vector itself".to_string());
                 self.edits.push(Edit { range: rng(e), text: recv, prio: 0 });
+            }
+            // R52: M.keys().cloned().collect()  ->  __imap_key_set(&M)   (the key set of an inner map of the table; the
+            // stand-in returns IndexSet<InpId>, so the rewritten text only compiles at that type)
+            syn::Expr::MethodCall(m)
+                if self.rw.on("R52") && m.method == "collect" && m.args.is_empty()
+                    && is_method(&m.receiver, "cloned").map_or(false, |c| c.args.is_empty() && is_method(&c.receiver, "keys").map_or(false, |k| k.args.is_empty())) =>
+            {
+                let c = is_method(&m.receiver, "cloned").unwrap();
+                let k = is_method(&c.receiver, "keys").unwrap();
+                let recv = self.render(&k.receiver);
+                self.rw.log.push("R52 M.keys().cloned().collect() -> __imap_key_set(&M)".to_string());
+                self.edits.push(Edit { range: rng(e), text: format!("__imap_key_set(&{recv})"), prio: 0 });
+            }
+            // R53: V.sort_unstable_by_key(|transition| transition.to)  ->  __sort_by_to(&mut V)   (closure matched literally)
+            syn::Expr::MethodCall(m) if self.rw.on("R53") && m.method == "sort_unstable_by_key" && m.args.len() == 1 => {
+                let cl = norm(self.rw.text(&m.args[0])).replace(' ', "");
+                if cl != "|transition|transition.to" {
+                    die("unsupported", &format!("{}: R53 side condition: the sort key is not `|transition| transition.to`", self.rw.fn_path));
+                }
+                let recv = self.render(&m.receiver);
+                self.rw.log.push("R53 V.sort_unstable_by_key(|transition| transition.to) -> __sort_by_to(&mut V)".to_string());
+                self.edits.push(Edit { range: rng(e), text: format!("__sort_by_to(&mut {recv})"), prio: 0 });
+            }
+            // R54: V.dedup()  ->  __dedup_transitions(&mut V)   (typed stand-in: compiles only for Vec<Transition>)
+            syn::Expr::MethodCall(m) if self.rw.on("R54") && m.method == "dedup" && m.args.is_empty() => {
+                let recv = self.render(&m.receiver);
+                self.rw.log.push("R54 V.dedup() -> __dedup_transitions(&mut V)".to_string());
+                self.edits.push(Edit { range: rng(e), text: format!("__dedup_transitions(&mut {recv})"), prio: 0 });
             }
             // R51: `StateId::try_from(X).unwrap()` -> `__stateid_from_u32(X)` (the stand-in takes a u32, so the
             // rewritten text only compiles when X is a u32: the reflexive, infallible conversion)
